@@ -140,8 +140,11 @@ def replay_proto(ctx, exe, prefix, names):
         return True
     walks = behaviours.cover_walks_dag(g, edge_filter=feasible)
     if ctx.quick:
+        # sample, but keep the rare interleavings: every walk in which a CREATE-mode open removes the name (Unlink) is kept first
         ctx.rng.shuffle(walks)
-        walks = walks[:150]
+        rare = [w for w in walks if any(lab.startswith("Unlink") for lab, _ in w)]
+        rest = [w for w in walks if not any(lab.startswith("Unlink") for lab, _ in w)]
+        walks = rare[:250] + rest[:150]
     lines, expect = [], []     # expect: per emitted 'ret'/'obs' checkpoint
     for w in walks:
         src = g.init
@@ -150,7 +153,8 @@ def replay_proto(ctx, exe, prefix, names):
             a, b = st[src], st[dst]
             if name == "NewCall":
                 h, n, init, create = args
-                lines.append("B %d semnew 1 %d %d %s" % (h, n, init, "create" if create else "open"))
+                # distinct initial values per process make "sees exactly the given value" observable
+                lines.append("B %d semnew 1 %d %d %s" % (h, n, h, "create" if create else "open"))
             elif name in ("OpenExcl", "Unlink", "OpenPlain", "Wait", "FreeUnlink"):
                 lines.append("S %d" % args[0])
             elif name == "AcqCall":
@@ -169,7 +173,13 @@ def replay_proto(ctx, exe, prefix, names):
             else:
                 raise Machinery("unknown SemProto action " + lab)
             lines.append("obs")
-            expect.append({"exists": b["kname"][0] != 0})
+            gates = {}
+            for hh in (1, 2):
+                pc = b["hp"][hh - 1]["pc"]
+                gates[hh] = {"excl": "sem_open", "plain": "sem_open", "unlink": "sem_unlink", "free_unlink": "sem_unlink"}.get(pc)
+                if b["apend"][hh - 1] == "called":
+                    gates[hh] = "sem_wait"
+            expect.append({"exists": b["kname"][0] != 0, "gates": gates})
             src = dst
         lines += ["K 1", "K 2", "P 3 semnew 1 1 0 open", "P 3 own 1", "P 3 free 1", "epoch"]
     sp, tp = ctx.path("proto.script"), ctx.path("proto.ndjson")
@@ -182,28 +192,80 @@ def replay_proto(ctx, exe, prefix, names):
     evs = [json.loads(x) for x in open(tp)]
     ctx.events += len(evs)
     key = None
-    j = bad = 0
+    j = bad = gbad = 0
+    curgate = {1: None, 2: None}
     for e in evs:
         if e["e"] == "sys" and "key" in e and key is None:
             key = e["key"]
+        if e["e"] == "gate" and e["p"] in curgate:
+            curgate[e["p"]] = e["call"]
+        elif e["e"] in ("ret", "crash") and e["p"] in curgate:
+            curgate[e["p"]] = None
+        elif e["e"] == "Epoch":
+            curgate = {1: None, 2: None}
         if e["e"] == "obs" and j < len(expect):
+            for hh in (1, 2):
+                if expect[j]["gates"][hh] != curgate[hh]:
+                    gbad += 1
+                    if len(ctx.drift) < 5:
+                        ctx.drift.append({"replay_step": j, "process": hh, "parked_before": curgate[hh], "model_next_syscall": expect[j]["gates"][hh]})
             ex = dict((k, v) for k, v in e["sem"]).get(key, 0) == 1 if key else False
             if ex != expect[j]["exists"]:
                 bad += 1
                 if len(ctx.drift) < 5:
                     ctx.drift.append({"replay_step": j, "name_exists_observed": ex, "model": expect[j]["exists"]})
             j += 1
-    ctx.extra["proto_replay"] = {"graph_states": len(g.labels), "graph_edges": g.nedges, "walks": len(walks), "steps": len(expect), "kernel_name_mismatches": bad,
+    ctx.extra["proto_replay"] = {"graph_states": len(g.labels), "graph_edges": g.nedges, "walks": len(walks), "steps": len(expect), "kernel_name_mismatches": bad, "syscall_gate_mismatches": gbad,
                                  "stuck_events": sum(1 for e in evs if e["e"] == "Stuck")}
     ctx.behaviours += len(walks)
     return tp
+
+
+WITNESSES = ["W_CreateRacesCreate", "W_OpenLosesName", "W_OwnerKilledBetweenCloseAndUnlink"]
+
+
+def witness_scripts(ctx):
+    """rare interleavings as reachability queries: TLC's shortest counterexample to each negated witness predicate is a
+    schedule at system-call granularity; it is executed on the real processes and judged by SemTrace like any history"""
+    import re
+    out = []
+    for w in WITNESSES:
+        r = ctx.design_check("ipc/SemProto.tla", cfg="SemProto_%s.cfg" % w, coverage=False, workers=1)
+        if r.ok:
+            raise Machinery("witness %s is not reachable in SemProto" % w)
+        i = r.out.find("Error: Invariant")
+        acts = re.findall(r"State \d+: <(\w+)\(([^)]*)\)", r.out[i:])
+        lines = []
+        for name, args in acts:
+            a = [x.strip() for x in args.split(",")]
+            h = int(a[0])
+            if name == "NewCall":
+                lines.append("B %d semnew 1 %s %d %s" % (h, a[1], h + 1, "create" if a[3] == "TRUE" else "open"))
+            elif name in ("OpenExcl", "Unlink", "OpenPlain", "Wait", "FreeUnlink"):
+                lines.append("S %d" % h)
+            elif name == "AcqCall":
+                lines.append("B %d acq 1" % h)
+            elif name == "Post":
+                lines.append("P %d rel 1" % h)
+            elif name == "TakeOwn":
+                lines.append("P %d own 1" % h)
+            elif name == "Close":
+                lines += ["B %d free 1" % h, "S %d" % h]
+            elif name == "Crash":
+                lines.append("K %d" % h)
+        # run everything to completion, then look at the counters through every handle that exists
+        lines += ["F 1", "F 2", "P 1 val 1", "P 2 val 1", "P 1 rel 1", "P 2 val 1", "P 2 rel 1", "P 1 val 1",
+                  "K 1", "K 2", "P 3 semnew 1 1 0 open", "P 3 own 1", "P 3 free 1", "obs", "epoch"]
+        out.append(lines)
+    return out
 
 
 def run(ctx):
     rng = ctx.rng
     prefix = "vf%d" % os.getpid()
     ctx.design_must_hold("ipc/SemAbs.tla", expect_actions=["SNew", "SCreateCall", "SCreateReset", "SCreateLin", "SAcqCall", "SAcqLin", "SRelease", "SOwn", "SFree"])
-    ctx.design_must_hold("ipc/SemProto.tla", cfg="SemProto_fixed.cfg", coverage=False, workers=16, xmx="8g", timeout=1800)
+    if not ctx.quick:
+        ctx.design_must_hold("ipc/SemProto.tla", cfg="SemProto_fixed.cfg", coverage=False, workers=16, xmx="8g", timeout=1800)
     r = ctx.design_check("ipc/SemProto.tla", cfg="SemProto_legacy.cfg", coverage=False)
     if r.ok:
         raise Machinery("non-vacuity: the legacy CREATE protocol was not rejected")
@@ -218,6 +280,8 @@ def run(ctx):
         scripts.append(("hist", g.lines))
     for lines in crash_scenarios(rng, True):
         scripts.append(("crash", lines))
+    for lines in witness_scripts(ctx):
+        scripts.append(("witness", lines))
     names = ["%s_%d" % (prefix, n) for n in (1, 2, 3)]
     files = []
     try:
@@ -277,7 +341,8 @@ def run(ctx):
                 sig = "wrong-%s" % ev.get("op")
             ctx.violation("sem:" + sig, "semaphore history rejected by SemTrace after %s of %s events: %s" % (matched[0], matched[1], json.dumps(ev)[:300]), [x for x in (sp, tp) if os.path.exists(x)])
         ctx.behaviours += len(scripts)
-        ctx.extra["scenarios"] = {"histories": sum(1 for k, _ in scripts if k == "hist"), "crash_points": sum(1 for k, _ in scripts if k == "crash")}
+        ctx.extra["scenarios"] = {"histories": sum(1 for k, _ in scripts if k == "hist"), "crash_points": sum(1 for k, _ in scripts if k == "crash"),
+                                  "tlc_witness_schedules": sum(1 for k, _ in scripts if k == "witness")}
         if files:
             for i, line in enumerate(open(files[0][1])):
                 if i < 5:
